@@ -92,6 +92,27 @@ func newMaterial(label string, serverNames, clientNames []string) (*material, er
 	}, nil
 }
 
+// shortLivedCA returns a self-signed CA certificate over m's CA key that is valid now but expires
+// in days days (an operator-provided CA with a short life).
+func shortLivedCA(m *material, days int) ([]byte, error) {
+	blk, _ := pem.Decode(m.CAKey)
+	k, err := x509.ParsePKCS1PrivateKey(blk.Bytes)
+	if err != nil {
+		return nil, err
+	}
+	now := time.Now().Add(-time.Hour)
+	t := &x509.Certificate{
+		SerialNumber: big.NewInt(11), Subject: pkix.Name{CommonName: "Verif Short-Lived CA", Organization: []string{"verif"}},
+		NotBefore: now, NotAfter: now.AddDate(0, 0, days), IsCA: true, BasicConstraintsValid: true,
+		KeyUsage: x509.KeyUsageCertSign | x509.KeyUsageCRLSign,
+	}
+	der, err := x509.CreateCertificate(rand.Reader, t, t, &k.PublicKey, k)
+	if err != nil {
+		return nil, err
+	}
+	return pemCert(der), nil
+}
+
 func b64(b []byte) string { return base64.StdEncoding.EncodeToString(b) }
 
 // secretObj builds a Secret; data values are raw bytes, nil data = a secret without data (as
